@@ -1792,16 +1792,12 @@ namespace avel {
         _mm_mask_storeu_epi8(ptr, mask, decay(v));
 
         #elif defined(AVEL_SSE2)
-        auto undef = _mm_undefined_si128();
-        auto full = _mm_cmpeq_epi8(undef, undef);
-
-        auto w = vec16x8u::width;
-        auto h = vec16x8u::width / 2;
-
-        auto lo = _mm_srl_epi64(full, _mm_cvtsi64_si128(8 * (h - std::min(h, n))));
-        auto hi = _mm_srl_epi64(full, _mm_cvtsi64_si128(8 * (w - std::min(w, n))));
-        auto mask = _mm_unpacklo_epi64(lo, hi);
-        _mm_maskmoveu_si128(decay(v), mask, reinterpret_cast<char *>(ptr));
+        // MASKMOVDQU may fault on masked-off bytes lying in an inaccessible
+        // page, so the vector is spilled and only the first n lanes copied
+        alignas(16) std::int8_t lanes[vec16x8i::width];
+        _mm_store_si128(reinterpret_cast<__m128i*>(lanes), decay(v));
+        auto w = vec16x8i::width;
+        std::memcpy(ptr, lanes, std::min(w, n) * sizeof(std::int8_t));
         #endif
 
         #if defined(AVEL_NEON)
